@@ -52,25 +52,39 @@ func runSpanParser(fn unmarshal.ParsingFunction, body []byte) ([]traceRow, []tag
 // runSpanParserN also reports how many responses carried rows (more than one: the parser
 // flushed in the middle of the batch).
 func runSpanParserN(fn unmarshal.ParsingFunction, body []byte) ([]traceRow, []tagRow, int, error) {
-	ch := fn(context.Background(), strings.NewReader(string(body)), nil)
-	var traces []traceRow
-	var tags []tagRow
-	var firstErr error
-	nresp := 0
-	// The portions are only looked at after the parser has finished with the whole body: a
-	// later portion must not disturb the rows of an earlier one (they sit in the insert
-	// queue while the parser goes on).
-	var resps []*wmodel.ParserResponse
-	for resp := range ch {
-		resps = append(resps, resp)
+	resps, err := parseSpans(fn, body)
+	if err != nil {
+		return nil, nil, 0, err
 	}
-	for _, resp := range resps {
+	return rowsOfResponses(resps)
+}
+
+// parseSpans drains the parser's channel and hands back the responses untouched. The
+// portions are only looked at after the parser has finished with the whole body: a later
+// portion must not disturb the rows of an earlier one (they sit in the insert queue while
+// the parser goes on).
+func parseSpans(fn unmarshal.ParsingFunction, body []byte) ([]*wmodel.ParserResponse, error) {
+	ch := fn(context.Background(), strings.NewReader(string(body)), nil)
+	var resps []*wmodel.ParserResponse
+	var firstErr error
+	for resp := range ch {
 		if resp.Error != nil {
 			if firstErr == nil {
 				firstErr = resp.Error
 			}
 			continue
 		}
+		resps = append(resps, resp)
+	}
+	return resps, firstErr
+}
+
+// rowsOfResponses reads the parser's own rows (the variant without the insert services).
+func rowsOfResponses(resps []*wmodel.ParserResponse) ([]traceRow, []tagRow, int, error) {
+	var traces []traceRow
+	var tags []tagRow
+	nresp := 0
+	for _, resp := range resps {
 		if s, ok := resp.SpansRequest.(*wmodel.TempoSamples); ok && s != nil {
 			nresp++
 			n := len(s.MTraceId)
@@ -96,7 +110,7 @@ func runSpanParserN(fn unmarshal.ParsingFunction, body []byte) ([]traceRow, []ta
 			}
 		}
 	}
-	return traces, tags, nresp, firstErr
+	return traces, tags, nresp, nil
 }
 
 // cand is one acceptable rendering of a tag value.
@@ -167,7 +181,9 @@ func checkTags(exp []spanExpect, tags []tagRow) error {
 		k := tupleKey(t.TraceID, t.SpanID, t.TimestampNs, t.DurationNs)
 		groups[k] = append(groups[k], t)
 		day := time.Unix(0, t.TimestampNs).UTC().Truncate(24 * time.Hour)
-		if !t.Date.UTC().Truncate(24 * time.Hour).Equal(day) {
+		// ClickHouse's Date column ends on 2149-06-06 (day 65535): later days have no
+		// representation (the decoded block shows them wrapped); not compared
+		if day.Unix()/86400 <= 65535 && !t.Date.UTC().Truncate(24*time.Hour).Equal(day) {
 			return fmt.Errorf("tag row key=%q of span %x: date %v is not the day of its timestamp %d", t.Key, t.SpanID, t.Date.UTC(), t.TimestampNs)
 		}
 	}
